@@ -506,6 +506,8 @@ def c09_reconfig(chk):
 # ----------------------------------------------------------------------------------------------- C10 (workspaces) + splines
 def c10(chk):
     ps.c10_splines(chk)
+    import props_ppoly as _pp
+    _pp.len_across_updates(chk)      # the trajectory object's own queries on a reused object
     rng = chk.rng
     groups, pairs = [], []
     k = 0
@@ -689,7 +691,7 @@ def c15(chk):
             ws_exists[s] = True
 
         for st in range(rng.randint(6, 14)):
-            op = rng.choice(['copy', 'assign', 'assign', 'selfassign', 'maps', 'mutate', 'destroy', 'eval', 'eval', 'ptrs', 'move', 'reject'])
+            op = rng.choice(['copy', 'assign', 'assign', 'selfassign', 'maps', 'mutate', 'destroy', 'eval', 'eval', 'ptrs', 'move', 'reject', 'snap', 'snap'])
             if len(live) < 2 and op in ('assign', 'destroy'):
                 op = 'copy'                    # assignments and destructions need a second object
             s = rng.choice(live)
@@ -701,6 +703,26 @@ def c15(chk):
                 state[t] = copy.copy(state[s]); ws_exists[t] = ws_exists[s]; live.append(t)
                 g.append(f'{rid}.{st}.p X opt_ptrs {t} {s}'); plan.append((f'{rid}.{st}.p', 'ptrs', (state[t], ws_exists[t], True), list(g)))
                 ev(t, 'c')
+            elif op == 'snap':
+                # the copy / assignment is made from inside a user callback, in the middle of an evaluate() of the source
+                # ("keep a snapshot of the optimizer at the best cost so far"); the snapshot then evaluates another vector
+                t = rng.choice(slots)
+                if t == s:
+                    continue
+                mode = 1 if t in live else 0
+                cc = state[s]
+                x = ol.rand_x(rng, cc)
+                cc2 = copy.copy(cc); cc2.x = x; cc2.slot = s
+                line = cc2.eval_line(f'{rid}.{st}.sn', 'Q', ws=-1, x=x).replace(f' opt_eval {s} ', f' opt_snap {s} {t} {mode} ', 1)
+                g.append(line)
+                plan.append((f'{rid}.{st}.sn', 'eval', cc2, list(g)))
+                ws_exists[s] = True
+                state[t] = copy.copy(state[s]); ws_exists[t] = 'any'
+                if t not in live:
+                    live.append(t)
+                chk.count('copy made from inside a callback of a running evaluation' if mode == 0 else 'assignment made from inside a callback of a running evaluation')
+                ev(t, 'sc')
+                ev(s, 'ss')
             elif op == 'reject':
                 # a rejected initialisation (empty time points) flags the object invalid and leaves its configuration as it was;
                 # it still evaluates, and copies / assignments from it must carry the whole configuration
@@ -786,7 +808,12 @@ def c15(chk):
                 chk.violation('optimizer unusable after this copy/assign/destroy history', tail, {'reply': str(a)[:200]}); continue
             ca, cm = fv(a['cost'])[0], fv(m['cost'])[0]
             ok, err = vec_close(fv(a['grad']), fv(m['grad']), GTOL[cc.order])
-            if isinstance(ca, float) or abs(ca - cm) > GTOL[cc.order] * max(Fr(1), abs(cm)) or not ok:
+            okc = True
+            if 'coeffs' in a and 'coeffs' in m and len(a['coeffs']) == len(m['coeffs']):
+                okc, _ = vec_close(fv(a['coeffs']), fv(m['coeffs']), GTOL[cc.order])      # the spline the object exposes afterwards
+            elif 'coeffs' in m:
+                okc = False
+            if isinstance(ca, float) or abs(ca - cm) > GTOL[cc.order] * max(Fr(1), abs(cm)) or not ok or not okc:
                 # the model has value semantics: an object depends only on the values it was copied from
                 chk.violation('after this history an optimizer does not evaluate like an independent deep copy (shared or dangling state)',
                               dict(tail, **cc.describe()), {'cost': float(ca) if not isinstance(ca, float) else str(ca), 'expected': float(cm)})
